@@ -51,44 +51,44 @@ pub const FULL: [F; 16] = [
 ];
 pub const QUICK: usize = 6;
 
-fn il(t: IntTy, v: i128) -> E {
+pub(crate) fn il(t: IntTy, v: i128) -> E {
     E::Int(v, Some(t), t)
 }
-fn u8l(v: i128) -> E {
+pub(crate) fn u8l(v: i128) -> E {
     il(IntTy::U8, v)
 }
-fn host(n: &str, a: Vec<E>) -> E {
+pub(crate) fn host(n: &str, a: Vec<E>) -> E {
     E::Host(n.into(), a)
 }
-fn st(e: E) -> S {
+pub(crate) fn st(e: E) -> S {
     S::Expr(e)
 }
-fn fld(x: E, f: &str) -> E {
+pub(crate) fn fld(x: E, f: &str) -> E {
     E::Field(Box::new(x), f.into())
 }
-fn ife(c: E, t: E, f: E) -> E {
+pub(crate) fn ife(c: E, t: E, f: E) -> E {
     E::If(Box::new(c), blk(vec![], Some(t)), Some(blk(vec![], Some(f))))
 }
-fn meth(r: E, m: &str, a: Vec<E>) -> E {
+pub(crate) fn meth(r: E, m: &str, a: Vec<E>) -> E {
     E::Method(Box::new(r), m.into(), a)
 }
-fn some(x: E) -> E {
+pub(crate) fn some(x: E) -> E {
     E::Ctor("Option".into(), "Some".into(), vec![x])
 }
-fn none() -> E {
+pub(crate) fn none() -> E {
     E::Ctor("Option".into(), "None".into(), vec![])
 }
-fn path_expr(path: &[String]) -> E {
+pub(crate) fn path_expr(path: &[String]) -> E {
     let mut e = var(&path[0]);
     for f in &path[1..] {
         e = fld(e, f);
     }
     e
 }
-fn emit_u8(v: i128) -> S {
+pub(crate) fn emit_u8(v: i128) -> S {
     st(host("emit_u8", vec![u8l(v)]))
 }
-fn arm(variant: Option<&str>, binds: Vec<String>, guard: Option<E>, body: Vec<S>) -> Arm {
+pub(crate) fn arm(variant: Option<&str>, binds: Vec<String>, guard: Option<E>, body: Vec<S>) -> Arm {
     Arm { variant: variant.map(String::from), binds, guard, body: blk(body, None) }
 }
 pub fn fname(k: usize) -> String {
@@ -296,6 +296,9 @@ pub enum Shape {
     ResErr,
     VerAcc,
     VerRej,
+    /// anonymous records whose literals and written-out types list the
+    /// fields in different orders (own program family, see perm.rs)
+    AnonPerm,
 }
 
 pub const ALL_SHAPES: [Shape; 14] = [
@@ -332,6 +335,7 @@ impl Shape {
             Shape::ResErr => "result-err",
             Shape::VerAcc => "verdict-accept",
             Shape::VerRej => "verdict-reject",
+            Shape::AnonPerm => "anon-permuted",
         }
     }
     /// the full program family or the reduced one (wrappers around a record
@@ -405,6 +409,9 @@ fn named_decl(fields: &[F]) -> RecDecl {
 
 impl TypeDesc {
     pub fn new(shape: Shape, fields: &[F]) -> Option<TypeDesc> {
+        if shape == Shape::AnonPerm {
+            return None; // built by perm.rs
+        }
         let n = fields.len();
         let tys: Vec<String> = fields.iter().map(|f| f.ty().print()).collect();
         let mut records = vec![];
@@ -447,6 +454,7 @@ impl TypeDesc {
         let ident: Vec<usize> = (0..n).collect();
         let u8t = Ty::Int(IntTy::U8);
         let (ty, access, annotate) = match shape {
+            Shape::AnonPerm => unreachable!(),
             Shape::Named => {
                 records.push(named_decl(fields));
                 (Ty::Named("R".into(), vec![]), Access::Record { name: Some("R".into()) }, false)
@@ -621,7 +629,7 @@ struct B<'a> {
     c: usize,
 }
 
-fn p() -> E {
+pub(crate) fn p() -> E {
     var("p")
 }
 
@@ -753,7 +761,7 @@ impl<'a> B<'a> {
     }
 }
 
-fn func(name: String, params: Vec<(&str, Ty)>, ret: Ty, stmts: Vec<S>, tail: Option<E>) -> Func {
+pub(crate) fn func(name: String, params: Vec<(&str, Ty)>, ret: Ty, stmts: Vec<S>, tail: Option<E>) -> Func {
     Func {
         name,
         params: params.into_iter().map(|(n, t)| (n.to_string(), t)).collect(),
@@ -763,7 +771,7 @@ fn func(name: String, params: Vec<(&str, Ty)>, ret: Ty, stmts: Vec<S>, tail: Opt
     }
 }
 
-fn u32t() -> Ty {
+pub(crate) fn u32t() -> Ty {
     Ty::Int(IntTy::U32)
 }
 
@@ -868,9 +876,9 @@ pub fn programs(d: &TypeDesc, first: usize) -> Vec<Prog> {
         (vec![helper], s, code(5))
     });
     if full {
-        // through a function and back. An anonymous record type written twice
-        // does not unify with itself on the pinned tree: compiled on its own.
-        add!("identity".into(), true, Ret::U32, d.shape == Shape::Anon, |b, pre| {
+        // through a function and back (for an anonymous record the same type
+        // is written twice; that was rejected before fix 3dec341 in /repo)
+        add!("identity".into(), true, Ret::U32, false, |b, pre| {
             let h = format!("{pre}h");
             let helper = func(h.clone(), vec![("x", t.clone())], t.clone(), vec![], Some(var("x")));
             let mut s = vec![b.let_cons("a", 0), S::Let("b".into(), None, E::Call(h, vec![var("a")]))];
